@@ -91,6 +91,10 @@ def family_cases(rng, tier):
             inc, wh = rng.choice([0, 1]), rng.choice([0, 1])
             ua = int(rng.random() < 0.3)
             tmode = rng.choice([17, 18, 19, 23, 27, 31, 16])
+            if ua and kind in ('push', 'pop'):
+                # unaligned_allowed is set only by the single-register encodings (PUSH/POP T3, A2: registers = 1 << t); a
+                # longer list with it is not an instruction (its UNKNOWN store would mix MemA into a MemU transfer)
+                regs = 1 << rng.randrange(15)
             if kind in ('push', 'pop'):
                 set_reg(st, t, 13, base)
             elif kind == 'srs':
